@@ -147,6 +147,7 @@ Inductive obs :=
 | OGrow (n : Z) (lens : list (Z * Z))
 | OGrowErr (e : err) (n : Z) (lens : list (Z * Z))
 | OSnap (s : list (Z * list (option (list comp))))
+| OShape (shape : list Z) (kind : ty)        (* shape and dtype kind of an exported array *)
 | OOther.
 
 Inductive op :=
@@ -163,7 +164,8 @@ Inductive op :=
 | Contains (a : Z) (k : Z)                           (* k in attr *)
 | ExtendListBad (m : Z)                              (* += [m well-formed items, then one a corner container cannot unpack] *)
 | CreateSized (a : Z) (t : ty) (k : Z) (d : option comp) (size : Z)     (* create_attribute(dense=True, size=size) *)
-| Register (a : Z) (t : ty) (k : Z) (rows : list (list comp)) (d : option comp).  (* register_array_as_attribute *)
+| Register (a : Z) (t : ty) (k : Z) (rows : list (list comp)) (d : option comp)   (* register_array_as_attribute *)
+| ExportShape (a : Z).                                (* as_array(..).shape and .dtype.kind *)
 
 (* ------------------------------------------------------------------ defaults *)
 Definition default_row (h : heap) (a : attr) : list comp :=
@@ -539,6 +541,21 @@ Definition do_register (s : state) (a : Z) (t : ty) (k : Z) (rows : list (list c
         (with_attrs (with_heap s h') (put a (mkattr t k df (Dense (sn s) (clock s) rows)) (attrs s)), OOk)
     end.
 
+(* the shape (and dtype) of what as_array returns; the state is untouched *)
+Definition do_export_shape (s : state) (a : Z) : state * obs :=
+  match lookup a (attrs s) with
+  | None => (s, OErr ENoAttr)
+  | Some at_ =>
+      match ast at_ with
+      | Sparse m =>
+          match fill_rows (hp s) at_ (sn s) m (repeat (default_row (hp s) at_) (Z.to_nat (sn s))) with
+          | Some _ => (s, OShape (sparse_export_shape (sn s) (asz at_)) (aty at_))
+          | None => (s, OErr EIndex)
+          end
+      | Dense _ _ rows => (s, OShape (dense_export_shape (Z.of_nat (length rows)) (asz at_)) (aty at_))
+      end
+  end.
+
 Definition step (s0 : state) (o : op) : state * obs :=
   let s := tick s0 in
   match o with
@@ -578,6 +595,7 @@ Definition step (s0 : state) (o : op) : state * obs :=
       else grow s (m + 1) (iadd_list_amount s (m + 1))          (* any object is an element of a DataContainer *)
   | CreateSized a t k d size => do_create_sized s a t k d size
   | Register a t k rows d => do_register s a t k rows d
+  | ExportShape a => do_export_shape s a
   end.
 
 Fixpoint run (s : state) (h : list op) : state * list obs :=
